@@ -10,8 +10,14 @@ use std::hash::{BuildHasher, Hasher};
 use std::sync::atomic::{AtomicUsize, Ordering};
 use std::sync::Arc;
 
-#[derive(Clone, Copy, Default)]
+#[derive(Clone, Copy)]
 struct H(u8);
+thread_local! { static DEFAULT_KIND: std::cell::Cell<u8> = const { std::cell::Cell::new(0) }; }
+impl Default for H {
+    fn default() -> H {
+        H(DEFAULT_KIND.with(|c| c.get()))
+    }
+}
 struct HH(u8, u64);
 impl BuildHasher for H {
     type Hasher = HH;
@@ -24,6 +30,7 @@ impl Hasher for HH {
         match self.0 {
             0 => self.1,                        // identity
             1 => 7,                             // constant: everything collides
+            3 => self.1 % 2,                    // two chains
             _ => self.1.wrapping_mul(0x9E37_79B9_7F4A_7C15) >> 7,
         }
     }
@@ -136,9 +143,49 @@ fn mixed(seed: u64, hash: u8, cap: usize, keys: u32, nthreads: usize, ops: usize
     assert_eq!(LIVE.load(Ordering::Relaxed), 0, "values leaked or dropped twice");
 }
 
+/// a resize copies entries into the new table while a reader follows forwarding pointers
+fn forward(seed: u64) {
+    let map: Arc<HashMap<u32, Counted, H>> = Arc::new(HashMap::with_capacity_and_hasher(0, H(0)).with_collector(seize::Collector::new().batch_size(2)));
+    let keys: Vec<u32> = vec![1, 17, 33, 2, 18, 5, 21, 9];
+    {
+        let g = map.guard();
+        for &k in &keys {
+            map.insert(k, Counted::new(k as u64), &g);
+        }
+    }
+    let m2 = map.clone();
+    let resizer = std::thread::spawn(move || {
+        let g = m2.guard();
+        m2.reserve(20 + (seed % 3) as usize, &g);
+    });
+    let m3 = map.clone();
+    let ks = keys.clone();
+    let reader = std::thread::spawn(move || {
+        for round in 0..3 {
+            let g = m3.guard();
+            for &k in &ks {
+                if let Some((kk, v)) = m3.get_key_value(&k, &g) {
+                    assert_eq!(*kk, k);
+                    assert_eq!(v.0.check(), k as u64);
+                }
+            }
+            if round == 1 {
+                for (_, v) in m3.iter(&g) {
+                    v.0.check();
+                }
+            }
+        }
+    });
+    resizer.join().unwrap();
+    reader.join().unwrap();
+    drop(Arc::try_unwrap(map).ok().expect("sole owner"));
+    assert_eq!(LIVE.load(Ordering::Relaxed), 0, "values leaked or dropped twice");
+}
+
 /// bulk construction with and without a size hint, colliding and not
 fn collect(seed: u64) {
     let mut s = seed;
+    DEFAULT_KIND.with(|c| c.set((rng(&mut s) % 3) as u8));
     let n = 9 + rng(&mut s) % 40;
     let hint = rng(&mut s) % 2 == 0;
     let pairs: Vec<(u32, Counted)> = (0..n).map(|i| (i as u32, Counted::new(i))).collect();
@@ -154,20 +201,19 @@ fn collect(seed: u64) {
     assert_eq!(LIVE.load(Ordering::Relaxed), 0, "values leaked or dropped twice");
 }
 
-thread_local! { static DEFAULT_KIND: std::cell::Cell<u8> = const { std::cell::Cell::new(0) }; }
-
 fn main() {
     let args: Vec<String> = std::env::args().collect();
     let scenario = args.get(1).map(|s| s.as_str()).unwrap_or("publish");
     let seed: u64 = args.get(2).and_then(|s| s.parse().ok()).unwrap_or(1);
     match scenario {
         // list bins, no resize: pure publication paths (CAS into empty bin, append, value swap)
-        "publish" => mixed(seed, 0, 20, 6, 3, 5, 1),
+        "publish" => mixed(seed, 3, 20, 6, 3, 5, 1),
         // 2-bin table: every few inserts resize; readers follow forwarding pointers
         "resize" => mixed(seed, 2, 1, 12, 3, 5, 1),
         // all keys collide in a 64-bin table: treeify / tree insert / untreeify
         "tree" => mixed(seed, 1, 42, 11, 2, 6, 2),
         "collect" => collect(seed),
+        "forward" => forward(seed),
         other => panic!("unknown scenario {}", other),
     }
 }
